@@ -19,6 +19,7 @@ EXPLANATION = "exhaustive_subdomains lists the finite sub-domains enumerated com
 ASSUMPTIONS = ["payloads are ints / short strings; exotic __eq__ implementations are not generated"]
 FLOORS = {}
 SHARDS = {"quick": 8, "thorough": 14}
+CASE_FUEL = 400000
 
 
 def ref_roman(n):
